@@ -67,6 +67,14 @@ def _c10_tags(toks, impl):
     return ["type=" + toks[1], "op=" + toks[2]] + (["answer=panic"] if impl == "panic" else [])
 
 
+def _c11_tags(toks, impl):
+    ops = [] if toks[4] == "-" else toks[4].split(",")
+    t = ["type=" + toks[1], "init=" + toks[3][0], "history-length=%s" % ("0" if not ops else ("1-10" if len(ops) <= 10 else "11-40"))]
+    for o in set(x[0] for x in ops):
+        t.append("op=" + o)
+    return t
+
+
 PROPS = {
     "C07": {
         "lean_modules": ["Dbg.Props.C07"],
@@ -101,8 +109,8 @@ PROPS = {
     "C10": {
         "lean_modules": ["Dbg.Props.C10"],
         "theorems": ["Kmer.shipped_wf", "Kmer.shipped_count", "Kmer.C10_get", "Kmer.C10_set", "Kmer.C10_set_inv", "Kmer.C10_extendRight",
-                     "Kmer.C10_extendLeft", "Kmer.C10_fromBytes"],
-        "partial": ["not yet proved (decided by execution against the string-level reference only): rc (ladder), set_slice_mut, to_u64/from_u64, "
+                     "Kmer.C10_extendLeft", "Kmer.C10_fromBytes", "Kmer.C10_rc", "Kmer.C10_toU64"],
+        "partial": ["not yet proved (decided by execution against the string-level reference only): set_slice_mut, from_u64, "
                     "hamming_dist, at_count/gc_count, to_string, from_ascii, min_rc/is_palindrome, kmers_from_bytes/ascii"],
         "n_quick": 40000, "n_thorough": 4000000,
         "nontrivial": lambda toks, impl: impl != "panic", "tags": _c10_tags,
@@ -114,5 +122,21 @@ PROPS = {
         "trusted_base": ["modelled, not verified: num_traits PrimInt shifts/conversions behave as the primitive integer operations; count_ones is "
                          "the number of set bits"],
         "assumptions": ["arguments in range (pos < K, base < 4, 1 <= n <= min(32, K-pos), rank < 4^K)"],
+    },
+    "C11": {
+        "lean_modules": ["Dbg.Props.C11"],
+        "theorems": ["Kmer.C11_eq_iff", "Kmer.C11_lt_iff_lex", "Kmer.C11_history", "Kmer.C11_routes_agree", "Kmer.toNat_eq_val"],
+        "partial": ["C11_history covers extend_left/right, extend, rc, set_mut, min_rc from any starting word satisfying the invariant; "
+                    "set_slice_mut steps and the from_u64/from_ascii constructors are not yet in the theorem (they are in the executed histories)"],
+        "n_quick": 6000, "n_thorough": 400000,
+        "nontrivial": lambda toks, impl: impl != "panic" and toks[4] != "-" and toks[4].count(",") >= 2, "tags": _c11_tags,
+        "rule": "requests `<type> hist <init> <ops> <other>`: a k-mer of one of the 19 types built by from_bytes / from_u64 / from_ascii, then "
+                "0-40 operations drawn from extend_left, extend_right, extend, rc, set_mut, set_slice_mut (random garbage below the run), "
+                "min_rc; the answer lists the raw storage word and the bases after every step, then ==, hash equality and cmp against the "
+                "from_bytes route to the same string and against another k-mer, and the binary-search position in the sorted, "
+                "de-duplicated family of up to 64 single-substitution neighbours. Non-trivial = at least 3 operations.",
+        "trusted_base": ["#[derive(PartialEq, Eq, Ord, Hash)] on the k-mer structs are the structural functions of the storage integer "
+                         "(PhantomData contributes nothing); slice::sort/dedup/binary_search are correct for a total order"],
+        "assumptions": ["arguments in range"],
     },
 }
